@@ -163,8 +163,88 @@ class TT(TBase):
         d_tr[d_idx] = (d_tr[d_idx]*31 + self.k*7 + 1) % 1000003
 
 
+class TLN(TBase):
+    """`loop` of an equation without sources (documented with TaitEOS: the
+    loop is applied to every destination particle, no neighbours involved);
+    uses t and dt."""
+    def loop(self, d_idx, d_tr, d_q, t, dt):
+        d_q[d_idx] = d_q[d_idx]*0.5 + 2.0*t + dt + self.k
+        d_tr[d_idx] = (d_tr[d_idx]*31 + self.k*7 + 8) % 1000003
+
+
+class TRO(TBase):
+    """Only reduce + converged (no per-particle hook); reduce uses t, dt."""
+    def __init__(self, dest, sources, k=1, tag=0):
+        self.rsum = 0.0
+        self.ncalls = 0.0
+        self.nreduce = 0.0
+        super(TRO, self).__init__(dest, sources, k, tag)
+
+    def reduce(self, dst, t, dt):
+        s = serial_reduce_array(dst.tr, 'sum')
+        self.rsum = (s + t*64.0 + dt*4096.0) % 997.0
+        self.nreduce += 1.0
+
+    def converged(self):
+        self.ncalls += 1.0
+        if (self.rsum + self.k) % 3.0 < 1.0:
+            return 1.0
+        else:
+            return -1.0
+
+
+class TPYO(TBase):
+    """Only py_initialize."""
+    def py_initialize(self, dst, t, dt):
+        log_event(self.tag, 'py_initialize', dst.name, float(t), float(dt),
+                  int(dst.get_number_of_particles()))
+        tr = dst.get_carray('tr').get_npy_array()
+        if len(tr) > 0:
+            tr[-1] = (tr[-1]*31 + self.k*7 + 9) % 1000003
+
+
+class TPO(TBase):
+    """Only initialize_pair (a source block without any neighbour loop)."""
+    def initialize_pair(self, d_idx, d_tr, s_nstop):
+        d_tr[d_idx] = (d_tr[d_idx]*31 + s_nstop[0]*3 + self.k*7 +
+                       10) % 1000003
+
+
+class TN(TBase):
+    """No hook at all."""
+
+
+class TC(TBase):
+    """Only converged(): convergence after a number of *calls*, so that a
+    short-circuited or repeated call is visible in the iteration count."""
+    def __init__(self, dest, sources, k=1, tag=0):
+        self.ncalls = 0.0
+        super(TC, self).__init__(dest, sources, k, tag)
+
+    def converged(self):
+        self.ncalls += 1.0
+        if self.ncalls >= self.k % 4:
+            return 1.0
+        else:
+            return -1.0
+
+
 class TNudge(TBase):
     """Moves particles (only used in groups that refresh neighbours)."""
     def post_loop(self, d_idx, d_tr, d_x, d_y, d_h):
         d_x[d_idx] = d_x[d_idx] + 0.11*d_h[d_idx]*((d_tr[d_idx] % 7) - 3.0)
         d_y[d_idx] = d_y[d_idx] - 0.07*d_h[d_idx]*((d_tr[d_idx] % 5) - 2.0)
+
+
+class TNudgeX(TBase):
+    """TNudge for one-dimensional programs: moves along x only."""
+    def post_loop(self, d_idx, d_tr, d_x, d_h):
+        d_x[d_idx] = d_x[d_idx] + 0.11*d_h[d_idx]*((d_tr[d_idx] % 7) - 3.0)
+
+
+class TNudgeBig(TBase):
+    """Moves particles by more than a neighbour cell (or not at all), so
+    that a stale binning is visibly stale: with moves below a cell width the
+    stale and the fresh binning mostly give the same neighbour sets."""
+    def post_loop(self, d_idx, d_tr, d_x, d_h):
+        d_x[d_idx] = d_x[d_idx] + 3.5*d_h[d_idx]*((d_tr[d_idx] % 3) - 1.0)
